@@ -30,8 +30,10 @@ func init() {
 	index.SetVerboseCorpusLogging(false)
 }
 
-func (engine) Name() string    { return "indexsim" }
-func (engine) Props() []string { return []string{"C05", "C06", "C07"} }
+func (engine) Name() string { return "indexsim" }
+
+// "C14X" is the index part of C14 (the driver runs it as part of C14).
+func (engine) Props() []string { return []string{"C05", "C06", "C07", "C14X"} }
 
 // Config is the engine part of a plan.
 type Config struct {
@@ -51,6 +53,8 @@ type Config struct {
 	// Times: extra query instants (ms after base) for C06/C07 (claim dates
 	// +-1ns are always used).
 	Times []int64 `json:"times,omitempty"`
+	// C14: the concurrent feed-while-queried mode (c14.go)
+	C14 *c14Cfg `json:"c14,omitempty"`
 }
 
 // Op is one element of the arrival history.
@@ -74,6 +78,8 @@ func (e engine) Gen(prop, tier string, run int, r *simcore.Rand) *harness.Plan {
 		return genC06(tier, run, r)
 	case "C07":
 		return genC07(tier, run, r)
+	case "C14X":
+		return genC14X(tier, run, r)
 	}
 	return nil
 }
@@ -124,6 +130,8 @@ func (e engine) Exec(rc *harness.RunCtx, p *harness.Plan) (out *harness.Outcome)
 		return execC06(rc, p, &cfg, w, ops)
 	case "C07":
 		return execC07(rc, p, &cfg, w, ops)
+	case "C14X":
+		return execC14X(rc, p, &cfg, w)
 	}
 	return &harness.Outcome{Inconclusive: "unknown property " + p.Prop}
 }
